@@ -453,34 +453,55 @@ func faultRule(c *Ctx, rule string, p *Prog, cio *connIO, fns map[*ssa.Function]
 				return
 			}
 			bad := ""
+			// judge the value v that leaves the function at `where`, given the facts known there
+			var judge func(v ssa.Value, blk *ssa.BasicBlock, fs []Fact, where string, depth int)
+			judge = func(v ssa.Value, blk *ssa.BasicBlock, fs []Fact, where string, depth int) {
+				if hasFact(fs, func(f Fact) bool { x, isNil, ok := FactNilCmp(f); return ok && isNil && carries(unspill(x), e) }) {
+					return // the read is known to have succeeded on this path
+				}
+				v = unspill(v)
+				if carries(v, e) {
+					return
+				}
+				if g, ok := sentinelGlobal(v); ok && sent[g] {
+					bad = fmt.Sprintf("return at %s reports the retry sentinel %s although the read may have failed", where, g.Name())
+					return
+				}
+				// a value merged from several exits (e.g. of an inlined helper): judge each incoming
+				// edge that can be reached after the read, with what is known on that edge
+				if ph, ok := v.(*ssa.Phi); ok && depth < 4 {
+					for i, ed := range ph.Edges {
+						pred := ph.Block().Preds[i]
+						if len(pred.Instrs) == 0 || ff.EdgeInfeasible(pred, ph.Block()) {
+							continue
+						}
+						last := pred.Instrs[len(pred.Instrs)-1]
+						if pred != rd.Block() && !canReachWithout(rd, last, nil) {
+							continue
+						}
+						efs := append([]Fact{}, ff.NC(pred)...)
+						if ef, ok := edgeFact(pred, ph.Block()); ok {
+							efs = append(efs, ef)
+						}
+						judge(ed, pred, efs, where, depth+1)
+					}
+					return
+				}
+				if ff.ProvablyNonNil(v, blk, 0) {
+					return
+				}
+				for _, f := range fs {
+					if x, isNil, ok := FactNilCmp(f); ok && !isNil && unspill(x) == v {
+						return
+					}
+				}
+				bad = fmt.Sprintf("return at %s is reachable after a failed read and returns a value that may be nil or a retry sentinel instead of the read error", where)
+			}
 			for _, r := range returnsOf(fn) {
 				if !canReachWithout(rd, r, nil) {
 					continue
 				}
-				fs := ff.NC(r.Block())
-				if hasFact(fs, func(f Fact) bool { x, isNil, ok := FactNilCmp(f); return ok && isNil && carries(unspill(x), e) }) {
-					continue
-				}
-				v := unspill(r.Results[ei])
-				if carries(v, e) {
-					continue
-				}
-				if g, ok := sentinelGlobal(v); ok && sent[g] {
-					bad = fmt.Sprintf("return at %s reports the retry sentinel %s although the read may have failed", p.InstrPos(r), g.Name())
-					continue
-				}
-				if ff.ProvablyNonNil(v, r.Block(), 0) {
-					if ph, ok := v.(*ssa.Phi); ok {
-						// a phi of errors may carry a sentinel
-						for _, ed := range ph.Edges {
-							if g, ok := sentinelGlobal(unspill(ed)); ok && sent[g] {
-								bad = fmt.Sprintf("return at %s may report the retry sentinel %s although the read failed", p.InstrPos(r), g.Name())
-							}
-						}
-					}
-					continue
-				}
-				bad = fmt.Sprintf("return at %s is reachable after a failed read and returns a value that may be nil or a retry sentinel instead of the read error", p.InstrPos(r))
+				judge(r.Results[ei], r.Block(), ff.NC(r.Block()), p.InstrPos(r), 0)
 			}
 			if bad != "" {
 				ob.Violate("%s", bad)
